@@ -30,6 +30,9 @@ RULE = ("dense / sparse / Kruskal / Tucker / sum holders of small-integer data o
         "leading / trailing / inner and several non-adjacent stored entries per result cell; every sparse operand "
         "stored in lexicographic, first-index-fastest, reversed or shuffled order (tagged stored:*); every sparse "
         "result must store each subscript once and its own full() must equal the sum of its stored entries; "
+        "ktensor.mask with dense / sparse masks of the same or smaller extents, ttensor.reconstruct with index vectors "
+        "(repeats, any order) and mixing matrices on any subset of modes in any order, Tucker tensors with a sparse "
+        "core (full, ttv with scalar / dense-core / sparse-core results); "
         "the same array held five ways; plus a malformed stream (wrong sizes, contradictory mode "
         "designations). Each implementation result is compared with the Lean spec value (sum over indices) and with "
         "the Lean model. non-trivial = accepted and operand has a non-zero entry; distinct = distinct case hash")
@@ -354,8 +357,11 @@ def canon(r):
                 "factors": [jval(np.asarray(f)) for f in r.factor_matrices]}
     if isinstance(r, ttb.ttensor):
         c = canon(r.core)
-        return {"kind": "tucker", "core": {"shape": c["shape"], "data": c["data"]},
-                "factors": [jval(np.asarray(f)) for f in r.factor_matrices]}
+        if c["kind"] == "sparse":
+            core = {k: v for k, v in c.items() if k != "_full"}
+        else:
+            core = {"shape": c["shape"], "data": c["data"]}
+        return {"kind": "tucker", "core": core, "factors": [jval(np.asarray(f)) for f in r.factor_matrices]}
     if isinstance(r, ttb.sumtensor):
         return {"kind": "sum", "parts": [canon(p) for p in r.parts]}
     if isinstance(r, np.ndarray):
@@ -405,6 +411,8 @@ def canon_model(m):
     if isinstance(m, dict) and m.get("kind") == "sum":
         return {"kind": "sum", "parts": [canon_model(p) for p in m["parts"]]}
     if isinstance(m, dict) and m.get("kind") == "tucker":
+        if m["core"].get("kind") == "sparse":
+            return {"kind": "tucker", "core": sort_sparse(m["core"]), "factors": m["factors"]}
         return {"kind": "tucker", "core": {"shape": m["core"]["shape"], "data": m["core"]["data"]}, "factors": m["factors"]}
     if isinstance(m, dict) and m.get("kind") in ("dense", "kruskal", "scalar", "vec"):
         keys = {"dense": ("kind", "shape", "data"), "kruskal": ("kind", "weights", "factors"),
@@ -434,8 +442,11 @@ def value_of(c):
         if h["kind"] == "kruskal":
             return {**h, "weights": [frac(x) for x in h["weights"]], "factors": [[[frac(x) for x in r] for r in f] for f in h["factors"]]}
         if h["kind"] == "tucker":
-            return {**h, "core": {"shape": h["core"]["shape"], "data": [frac(x) for x in h["core"]["data"]]},
-                    "factors": [[[frac(x) for x in r] for r in f] for f in h["factors"]]}
+            if h["core"].get("kind") == "sparse":
+                core = {**h["core"], "vals": [frac(x) for x in h["core"]["vals"]]}
+            else:
+                core = {"shape": h["core"]["shape"], "data": [frac(x) for x in h["core"]["data"]]}
+            return {**h, "core": core, "factors": [[[frac(x) for x in r] for r in f] for f in h["factors"]]}
         if h["kind"] == "sum":
             return {**h, "parts": [fr(p) for p in h["parts"]]}
         return h
@@ -637,6 +648,30 @@ def run_impl(c):
         return canon(X.ttt(Y, arr(c["xd"]), arr(c["yd"])))
     if op == "full":
         return canon(X.full())
+    if op == "mask":
+        return {"kind": "vec", "data": jval(np.asarray(X.mask(build(c["W"], lay))).reshape(-1))}
+    if op == "reconstruct":
+        if c["samples"] is None:
+            return canon(X.reconstruct())
+        samples = []
+        for j, smp in enumerate(c["samples"]):
+            if "idx" in smp:
+                samples.append(np.array(smp["idx"], dtype=int))
+            else:
+                samples.append(lay_arr(np.array(smp["rows"], dtype=float).reshape(smp["m"], smp["n"]), lay, j))
+        if c["modes"] is None:
+            return canon(X.reconstruct(samples))
+        return canon(X.reconstruct(samples, list(c["modes"])))
+    if op == "tucker_sp":
+        if c["what"] == "full":
+            return canon(X.full())
+        vs = [lay_arr(np.array(v, dtype=float), lay, j) for j, v in enumerate(c["vs"])]
+        kw = {}
+        if c["dims"] is not None:
+            kw["dims"] = arr(c["dims"])
+        if c["excl"] is not None:
+            kw["exclude_dims"] = arr(c["excl"])
+        return canon(X.ttv(vs, **kw))
     raise ValueError(op)
 
 
@@ -697,6 +732,11 @@ class C02Family(Family):
         elif op == "mttkrps":
             ok_spec = len(got) == len(sval) and all(same_value(g, s) for g, s in zip(got, sval))
             ok_model = (not m_rej) and deep_eq(got, mval)
+        elif op == "mask":
+            from harness.lib import num_eq as _ne
+            ok_spec = len(got["data"]) == len(sval) and all(_ne(a, b) for a, b in zip(got["data"], sval))
+            ok_model = (not m_rej) and len(got["data"]) == len(mval) and all(_ne(a, b) for a, b in zip(got["data"], mval))
+            tags.append(f"mask:{c['W']['kind']}")
         elif op in ("innerprod",):
             sv = {"kind": "scalar", "value": sval}
             ok_spec = same_value(got, sv)
@@ -855,7 +895,8 @@ class TtvFam(C02Family):
 
 class TtmFam(C02Family):
     name = "ttm"
-    theorems = ("C02_ttm_dense_mode", "C02_ttm_dense", "C02_ttm_spec_peel", "C02_dims_any_order", "C02_exclude_dims",
+    theorems = ("C02_ttm_dense_mode", "C02_ttm_dense", "C02_ttm_spec_peel", "C02_ttm_sparse_mode", "C02_ttm_sparse",
+                "C02_ttm_sparse_eq_dense", "C02_ttm_tucker", "C02_dims_any_order", "C02_exclude_dims",
                 "C02_list_len_P", "C02_list_len_N_vs_P")
 
     def case(self, rng, X, sel, conv, tr, single=False):
@@ -932,7 +973,8 @@ def with_layouts(rng, cases):
 
 class MttkrpFam(C02Family):
     name = "mttkrp"
-    theorems = ("C02_mttkrp_dense", "C02_mttkrp_dense_kruskal", "C02_mttkrp_weights_spec", "C02_mttkrp_sparse")
+    theorems = ("C02_mttkrp_dense", "C02_mttkrp_dense_kruskal", "C02_mttkrp_weights_spec", "C02_mttkrp_sparse",
+                "C02_mttkrp_parts", "C02_mttkrp_parts_kruskal_eq_list", "C02_mttkrp_sum", "C02_mttkrp_sum_kruskal")
 
     def gen(self, rng, tier):
         out = []
@@ -965,7 +1007,7 @@ class MttkrpFam(C02Family):
 
 class MttkrpsFam(C02Family):
     name = "mttkrps"
-    theorems = ()
+    theorems = ("C02_mttkrps_dense_at", "C02_min_split_bound", "C02_mttkrps_dense", "C02_mttkrps_dense_kruskal")
 
     def gen(self, rng, tier):
         out = []
@@ -1151,7 +1193,7 @@ class ContractCollapseScaleFam(C02Family):
 
 class TttFam(C02Family):
     name = "ttt"
-    theorems = ()  # model + spec + correspondence only
+    theorems = ("C02_ttt_dense",)
 
     def gen(self, rng, tier):
         out = []
@@ -1250,5 +1292,84 @@ class CrossFam(Family):
         return out
 
 
+def sparse_core_tucker(rng, shape):
+    """Tucker holder with a sparse core (+ the same object with the core expanded, for the spec side)"""
+    T = h_tucker(rng, shape)
+    cs = T["core"]["shape"]
+    A = np.array(T["core"]["data"], dtype=int).reshape(tuple(cs), order="F") if cs else np.array(1)
+    keep = rng.choice([0.0, 0.3, 0.6, 1.0])
+    A = np.where(np.array([rng.random() < keep for _ in range(A.size)]).reshape(A.shape), A, 0)
+    Xd = {"kind": "tucker", "core": {"shape": cs, "data": [int(x) for x in A.flatten(order="F")]}, "factors": T["factors"]}
+    sp = h_sparse(A, rng)
+    X = {"kind": "tucker", "core": sp, "factors": T["factors"]}
+    return X, Xd
+
+
+class ExtrasFam(C02Family):
+    """operations DESIGN listed as not modelled: ktensor.mask, ttensor.reconstruct, Tucker with a sparse core"""
+    name = "mask_reconstruct_sparsecore"
+    theorems = ("C02_mask_kruskal", "C02_mask_kruskal_rejects", "C02_tucker_full_sparse_core")
+
+    def gen(self, rng, tier):
+        out = []
+        n = 12 if tier == "quick" else 120
+        # ktensor.mask: dense and sparse masks of the same or smaller extents, every stored order
+        for it in range(n):
+            shape = pick_shape(rng, 1, 4, 3)
+            K = h_kruskal(rng, shape)
+            wshape = [rng.randint(1, e) if rng.random() < 0.3 else e for e in shape]
+            W01 = (rand_array(rng, wshape, rng.choice([0.2, 0.6, 1.0]), 1, 2) != 0).astype(int) * rng.choice([1, 2, -3])
+            if it % 2 == 0:
+                W = h_dense(W01)
+            else:
+                W = h_sparse(W01, rng, order=SP_ORDERS[it % len(SP_ORDERS)])
+            out.append({"op": "mask", "X": K, "W": W, "tag": ["mask"]})
+        # ALWAYS: a mask without any non-zero, sparse (nothing stored) and dense (all zeros), several orders
+        for shape in ([3], [2, 3], [2, 1, 3], pick_shape(rng, 2, 4, 3)):
+            Z = np.zeros(tuple(shape), dtype=int)
+            out.append({"op": "mask", "X": h_kruskal(rng, shape), "W": h_sparse(Z), "tag": ["mask", "mask:empty"]})
+            out.append({"op": "mask", "X": h_kruskal(rng, shape), "W": h_dense(Z), "tag": ["mask", "mask:empty"]})
+        shape = pick_shape(rng, 2, 3, 3)
+        big = [e + 1 for e in shape]
+        out.append({"op": "mask", "X": h_kruskal(rng, shape), "W": h_dense(np.ones(tuple(big), dtype=int)), "valid": False})
+        # ttensor.reconstruct: index vectors (repeats, any order), mixing matrices, modes in any order
+        for it in range(n):
+            shape = pick_shape(rng, 1, 4, 3)
+            N = len(shape)
+            T = h_tucker(rng, shape)
+            kind = it % 4
+            if kind == 0:
+                out.append({"op": "reconstruct", "X": T, "samples": None, "modes": None, "sel": [], "ssel": [],
+                            "tag": ["recon:none"]})
+                continue
+            modes = list(range(N)) if kind == 1 else rng.sample(range(N), rng.randint(1, N))
+            samples = []
+            for m_ in modes:
+                if rng.random() < 0.6:
+                    samples.append({"idx": [rng.randrange(shape[m_]) for _ in range(rng.randint(1, 3))]})
+                else:
+                    q = rng.randint(1, 3)
+                    if q == shape[m_] and rng.random() < 0.5:
+                        q += 1
+                    samples.append(mat_arg(rand_mat(rng, q, shape[m_])))
+            out.append({"op": "reconstruct", "X": T, "samples": samples, "modes": None if kind == 1 else modes,
+                        "sel": modes, "ssel": samples, "tag": ["recon:all" if kind == 1 else "recon:modes"]})
+        # Tucker with a sparse core: full and ttv (scalar / dense-core / sparse-core results)
+        for it in range(n * 2):
+            shape = pick_shape(rng, 1, 4, 3)
+            N = len(shape)
+            X, Xd = sparse_core_tucker(rng, shape)
+            if it % 3 == 0:
+                out.append({"op": "tucker_sp", "what": "full", "X": X, "Xd": Xd, "tag": ["spcore:full"]})
+                continue
+            sel = rng.choice(subsets(N))
+            byMode = {d: vec(rng, shape[d]) for d in range(N)}
+            vs, dims, excl = designate(rng, N, sel, rng.choice(CONVS), byMode, True)
+            out.append({"op": "tucker_sp", "what": "ttv", "X": X, "Xd": Xd, "vs": vs, "dims": dims, "excl": excl,
+                        "sel": sorted(sel), "ws": [byMode[d] for d in sorted(sel)], "tag": ["spcore:ttv"]})
+        return with_layouts(rng, out)
+
+
 def families():
-    return [TtvFam(), TtmFam(), MttkrpFam(), MttkrpsFam(), InnerFam(), ContractCollapseScaleFam(), TttFam(), FullFam(), CrossFam()]
+    return [TtvFam(), TtmFam(), MttkrpFam(), MttkrpsFam(), InnerFam(), ContractCollapseScaleFam(), TttFam(), FullFam(),
+            ExtrasFam(), CrossFam()]
